@@ -199,11 +199,17 @@ var _ *pb.SharedGroupProposal
 //@ ghost to uint64 = 0
 //@ ghost haveClient int = 0
 //@ ghost delivered int = 0
+//@ ghost msgs int = 0
+//@ ghost settled int = 0
+//@ ghost snaps int = 0
+//@ ghost snapReports int = 0
 //@ at call Message).Marshal
 //@ set enc = $ret0
 //@ set encOK = ite(isnil($ret1), 1, 0)
 //@ set haveClient = 0
 //@ set delivered = 0
+//@ set msgs = msgs + ite(isnil($ret1), 1, 0)
+//@ set snaps = snaps + ite(isnil($ret1) && m.Type == 7, 1, 0)
 //@ end
 //@ at call RaftTransport).getNodeRaftTransportClient
 //@ requires [C05 client-of-the-addressee] $arg1 == m.To && encOK == 1
@@ -213,15 +219,22 @@ var _ *pb.SharedGroupProposal
 //@ at call RaftTransportClient.Receive
 //@ requires [C05 message-goes-to-its-addressee-under-this-groups-id] haveClient == 1 && to == m.To && $arg2 != nil && $arg2.Message == enc && uuidOfBytes($arg2.GroupId) == group.id && delivered == 0
 //@ set delivered = ite(isnil($ret1), 1, 0)
+//@ set settled = settled + ite(isnil($ret1), 1, 0)
 //@ end
 //@ at call RaftGroup).reportUnreachable
 //@ requires [C05 only-undelivered-messages-are-reported-unreachable] $arg1 == m.To && delivered == 0
+//@ set settled = settled + 1
 //@ end
 //@ at call RaftGroup).reportSnapshot
 //@ requires [C05 snapshot-status-follows-delivery] $arg1 == m.To && m.Type == 7 && ($arg2 == 1) == (delivered == 1)
+//@ set snapReports = snapReports + 1
 //@ end
 //@ requires [wf] this.clusterConn != nil && group != nil && !isnil(ctx)
+//@ ensures [C05 every-message-is-delivered-or-reported-unreachable] settled == msgs
+//@ ensures [C05 every-snapshot-message-gets-one-status-report] snapReports == snaps
 //@ modifies map(this.clusterConn.conns)
+//@ loop 1
+//@ invariant [C05 every-message-so-far-delivered-or-reported] settled == msgs && snapReports == snaps
 
 // the registered state-machine callbacks may change anything except the raft group's own bookkeeping
 //@ func field:storage/raft.RaftGroup.processFn
@@ -447,6 +460,7 @@ var _ *pb.SharedGroupProposal
 //@ requires [wf] this.groups != nil && group != nil
 //@ ensures [C05 registered-under-its-own-id] isnil(ret) ==> has(this.groups, group.id) && this.groups[group.id] == group && !old(has(this.groups, group.id))
 //@ ensures [C05 taken-id-is-refused] old(has(this.groups, group.id)) ==> ret == GroupAlreadyExistsError && this.groups[group.id] == old(this.groups[group.id])
+//@ ensures [C05 refusal-changes-nothing] !isnil(ret) ==> has(this.groups, group.id) == old(has(this.groups, group.id)) && this.groups[group.id] == old(this.groups[group.id])
 //@ ensures [others] forall j uuid.UUID :: j != group.id ==> has(this.groups, j) == old(has(this.groups, j)) && this.groups[j] == old(this.groups[j])
 //@ modifies map(this.groups)
 
@@ -456,6 +470,8 @@ var _ *pb.SharedGroupProposal
 //@ requires [args] transport != nil && !isnil(storage)
 //@ ensures [group] isnil(ret1) ==> ret0 != nil && fresh(ret0) && ret0.transport == transport && ret0.wal == storage && ret0.id == id
 //@ ensures [group-raft] isnil(ret1) ==> !isnil(ret0.raft)
+//@ ensures [C05 registered-under-its-own-id-with-its-raft-node] isnil(ret1) ==> has(transport.groups, id) && transport.groups[id] == ret0
+//@ ensures [C05 failed-construction-leaves-no-registry-entry] !isnil(ret1) ==> forall j uuid.UUID :: has(transport.groups, j) == old(has(transport.groups, j)) && (has(transport.groups, j) ==> transport.groups[j] == old(transport.groups[j]))
 //@ ensures [group-ctx] isnil(ret1) ==> !isnil(ret0.ctx)
 //@ ensures [group-log] isnil(ret1) ==> ret0.log != nil
 //@ ensures [group-unregistered] isnil(ret1) ==> ret0.processFn == nil && ret0.processSnapshotFn == nil && ret0.snapshotFn == nil
